@@ -76,7 +76,8 @@ BUDGET = {'quick': {'cases': 1100, 'shards': 16, 'seconds': 240, 'shrink_s': 40}
           'thorough': {'cases': 8000, 'shards': 16, 'seconds': 2400, 'shrink_s': 60}}
 # fractions of the generated cases (about half of what the quick tier measures)
 FLOORS = {'gen:synth': 0.25, 'gen:sample': 0.08, 'gen:history': 0.10, 'synth:multi-edition': 0.06,
-          'synth:reference-parses': 0.25, 'synth:foreign-head': 0.05, 'synth:responses-recombined': 0.08,
+          # ('synth:reference-parses' depends on the behaviour of the code under test: not a floor)
+          'synth:foreign-head': 0.05, 'synth:responses-recombined': 0.08,
           'history:mixed-listings': 0.08}
 
 _STATE = {'tier': 'quick', 'pristine': None, 'refs': {}, 'fresh': {}, 'fuzz': None}
